@@ -51,6 +51,12 @@ Theorem C18_registry_none : forall args hs,
 Proof. exact registry_none. Qed.
 Print Assumptions C18_registry_none.
 
+(* no host to ask, no launcher (a launchers.py without find_launcher(); the absence of launchers.py is the documented
+   default "local host" and is outside the model: there is no host description to match against) *)
+Theorem C18_registry_no_host : forall args, registry_find args [] = None.
+Proof. exact registry_no_host. Qed.
+Print Assumptions C18_registry_no_host.
+
 (* one string with |, several strings, objects, objects built with |, or a mix: same answer *)
 Theorem C18_registry_grouping : forall args args' hs,
   all_alts args = all_alts args' -> registry_find args hs = registry_find args' hs.
